@@ -13,7 +13,7 @@ CHECK = "check_any"
 THEOREMS = ["C20_low", "C20_low2", "C20_high", "C20_long_pointer", "C20_base_relative", "C20_live"]
 RULE = ("rom_to_snes / snes_to_rom / their round trip at every bank boundary +-{0,1,0x7FFF,0x8000} in the three modes, "
         "random offsets of the 4 MiB space (thorough: a dense stride sweep), out-of-range and negative offsets "
-        "(correspondence only); long_low_rom_pointer and base_relative_16bits_pointer_formula on a grid of boundary "
+        "(correspondence only); the address is also looked up in the assembler's own bus (its file offset must be the offset); long_low_rom_pointer and base_relative_16bits_pointer_formula on a grid of boundary "
         "(base, pointer) pairs; non-trivial: offset in the stated range; distinct by arguments")
 PROVED_NOTE = ("proved for every offset in range (all of Z, not a sweep): rom_to_snes gives the LoROM / second LoROM / HiROM "
                "address whose mapped file offset (closed form of the built-in bus, tied to the live bus each run) is that "
@@ -65,6 +65,8 @@ def cases(ctx):
         for m in ("low", "low2", "high"):
             out.append({"kind": "r2s", "o": o, "mode": m})
             out.append({"kind": "round", "o": o, "mode": m})
+            if 0 <= o < 0x400000:
+                out.append({"kind": "bus", "o": o, "mode": m})
     # exhaustive sweeps: every offset of the 4 MiB space in each mode (thorough); two 64K chunks (quick)
     for m in ("low", "low2", "high"):
         for chunk in (range(0, 64) if tier == "thorough" else (0, 0x37)):
@@ -104,6 +106,10 @@ def observe(case):
             acc = (acc * 31 + (i + 1) * v) % P
             acc_in = (acc_in * 31 + (i + 1) * (v if specified else 0)) % P
         return {"ok": [acc, acc_in]}
+    if k == "bus":
+        from a816 import symbols
+        bus = symbols.high_rom_bus if case["mode"] == "high" else symbols.low_rom_bus
+        return observe_call(lambda: bus.get_address(rom_to_snes(case["o"], rt[case["mode"]])).physical)
     if k == "r2s":
         return observe_call(lambda: rom_to_snes(case["o"], rt[case["mode"]]))
     if k == "round":
@@ -126,6 +132,8 @@ def coq_term(case, ob):
 
 def _plain_term(case, ob):
     k = case["kind"]
+    if k == "bus":
+        return f"CBus {C.z(case['o'])} {MODE[case['mode']]} {obs_term(ob, lambda v: C.copt(v, C.z))}"
     if k == "r2s":
         return f"CR2S {C.z(case['o'])} {MODE[case['mode']]} {obs_term(ob, C.z)}"
     if k == "round":
